@@ -86,6 +86,8 @@ pub fn run_life() {
         let mut user: Option<String> = Some("bypass".to_string());
         let mut auth = false;
         let mut bg: Option<tokio::task::JoinHandle<serde_json::Value>> = None;
+        #[allow(unused_mut, unused_variables)]
+        let mut bgc: Option<tokio::task::JoinHandle<Result<usize, String>>> = None;
         println!("{}", json!({"ready": true}));
         std::io::stdout().flush().unwrap();
         for line in stdin.lock().lines() {
@@ -152,6 +154,32 @@ pub fn run_life() {
                         let reg = ctx.registry.read().await;
                         match reg.get_uid(t[1]) { Some(u) => json!({"uid": u}), None => json!({"uid": null}) }
                     }
+                    "index" => {
+                        // decoded segments.idx of a shard: "id:uid,uid;…" (sorted); uids are mapped by the harness
+                        let shard: usize = t.get(1).and_then(|s| s.parse().ok()).unwrap_or(0);
+                        let dir = std::path::PathBuf::from(&snel_db::shared::config::CONFIG.engine.data_dir).join(format!("shard-{shard}"));
+                        match snel_db::engine::core::SegmentIndex::load(&dir).await {
+                            Ok(ix) => {
+                                let mut es: Vec<(u32, Vec<String>)> = ix.iter_all().map(|e| { let mut u = e.uids.clone(); u.sort(); (e.id, u) }).collect();
+                                es.sort();
+                                json!({"index": es.iter().map(|(i, u)| format!("{}:{}", i, u.join(","))).collect::<Vec<_>>()})
+                            }
+                            Err(e) => json!({"error": e.to_string()}),
+                        }
+                    }
+                    #[cfg(sneldb_verif)]
+                    "bgcompact" => {
+                        let shard: u32 = t.get(1).and_then(|s| s.parse().ok()).unwrap_or(0);
+                        bgc = Some(tokio::spawn(async move { snel_db::engine::compactor::background::verif::compact_now(shard).await }));
+                        json!({"ok": true})
+                    }
+                    #[cfg(sneldb_verif)]
+                    "joincompact" => match bgc.take() {
+                        Some(h) => match tokio::time::timeout(std::time::Duration::from_secs(30), h).await {
+                            Ok(Ok(Ok(n))) => json!({"plans": n}), Ok(Ok(Err(e))) => json!({"error": e}),
+                            Ok(Err(_)) => json!({"panic": "compact"}), Err(_) => json!({"error": "TIMEOUT"}) },
+                        None => json!({"error": "no bg compaction"}),
+                    },
                     "failwrite" => { FAIL_NEXT.store(t.get(1).and_then(|s| s.parse().ok()).unwrap_or(0), std::sync::atomic::Ordering::SeqCst); json!({"ok": true}) }
                     "user" => { user = if t.get(1).copied() == Some("-") || t.len() < 2 { None } else { Some(t[1].to_string()) }; json!({"ok": true}) }
                     "auth" => { auth = t.get(1).copied() == Some("1"); json!({"ok": true}) }
